@@ -60,6 +60,29 @@ theorem sync_frame (E : Emitters IR) (t : Kind) (tp : List String) (paths : Kind
   · rw [h]; exact FileFrame.refl _ _
   · exact conform_frame' E k (paths k) ir _ _ flag h
 
+/-- **Frame of a run in which several kinds name the same file** (`--class shared.py --argparse-function shared.py`): the
+    content of every file after the run — completed or aborted — is reached from its old content by a chain of
+    `_conform_filename` frames, one for each kind that was processed on that file, each for that kind's own target path.
+    So only the named targets of the kinds listed for a file can differ; everything else stays.  (`sync_frame` is the
+    case of three distinct files.) -/
+theorem sync_frame_shared (E : Emitters IR) (t : Kind) (tp : List String) (paths : Kind → List String) (slot : Kind → Kind)
+    (s : Files) (k' : Kind) :
+    ∃ ps, FrameChain ps (s.get k') ((syncAt E t tp paths slot s).files.get k') ∧
+      ∀ p ∈ ps, ∃ k ∈ kinds, slot k = k' ∧ p = paths k := by
+  unfold syncAt
+  cases h : targetIR E t tp (s.get (slot t)) with
+  | error e => exact ⟨[], .nil _, by simp⟩
+  | ok ir => exact syncLoopAt_chain E paths slot ir k' kinds { files := s, flags := [], err := none }
+
+/-- with three distinct files the general loop is the one all other theorems are about -/
+theorem syncAt_id (E : Emitters IR) (t : Kind) (tp : List String) (paths : Kind → List String) (s : Files) :
+    syncAt E t tp paths id s = sync E t tp paths s := by
+  unfold syncAt sync
+  simp only [id]
+  cases h : targetIR E t tp (s.get t) with
+  | error e => rfl
+  | ok ir => exact syncLoopAt_id E paths ir kinds { files := s, flags := [], err := none }
+
 /-- non-vacuity of the frame: a rewrite that does replace a nested node -/
 example : (match rwList ["C", "x"] none [.cls "C" [] [] [.expr "1", .cls "x" [] [] [] []] []] { repl := .stmt (.cls "x" [] [] [.expr "2"] []), replaced := false } with
     | .ok (m', st) => st.replaced && beqList m' [.cls "C" [] [] [.expr "1", .cls "x" [] [] [.expr "2"] []] []]
@@ -340,5 +363,15 @@ example :
     (sync toy .function ["f"] paths r.files).files.cls = some [.cls "K" ["object"] [] [.strExpr "q"] []] ∧
     r.files.cls = some [.cls "K" ["object"] [] [.strExpr "q"] []] :=
   ⟨by decide, by decide, irIs_eq (by decide), fileIs_eq (by decide), fileIs_eq (by decide)⟩
+
+/-- non-vacuity of the shared-file loop: class truth `K` and an argparse target requested in the SAME (class) file — the
+    function is appended to that file, after the class -/
+example :
+    let s : Files := { witness with argparse := none }
+    let slot : Kind → Kind := fun k => match k with | .argparse => .cls | k => k
+    let r := syncAt toy .cls ["K"] witnessPaths slot s
+    r.err = none ∧ r.flags = [(.argparse, true), (.cls, false), (.function, false)] ∧
+    r.files.cls = some [.cls "K" ["object"] [] [.strExpr "a", .strExpr "b"] [], .fn false "set_cli_args" {} [.strExpr "a", .strExpr "b"] [] none] :=
+  ⟨by decide, by decide, fileIs_eq (by decide)⟩
 
 end C12
